@@ -557,6 +557,20 @@ Proof.
   destruct (new_named_name m n sh) as [_ ->]. apply (proj2 (type_patch_spec m n) p Hm). exact Hx.
 Qed.
 
+(* recording the schema default keeps name, kind and per-type derives: the derive list is unchanged *)
+Lemma record_default_derives : forall T e df, derives_of T (record_default e df) = derives_of T e.
+Proof. intros T [d ds] df. unfold record_default, derives_of. simpl. destruct d; reflexivity. Qed.
+
+Theorem patch_derives_survive_default : forall T m n sh p x df,
+  assoc n m = Some p -> In x (pa_derives p) ->
+  In x (derives_of T (record_default (new_named m n sh) df)) /\
+  det_name (e_det (record_default (new_named m n sh) df)) = det_name (e_det (new_named m n sh)).
+Proof.
+  intros T m n sh p x df Hm Hx. split.
+  - rewrite record_default_derives. apply (patch_derives T m n sh p x Hm Hx).
+  - unfold record_default. simpl. destruct (e_det (new_named m n sh)); reflexivity.
+Qed.
+
 (* the name stored in the entry is the patched one; a use site spells the STORED name *)
 Theorem patch_apply : forall m n sh,
   det_name (e_det (new_named m n sh)) =
